@@ -626,15 +626,17 @@ Qed.
 
 Lemma filter_by_set_spec : forall canon files set f,
   In f (filter_by_set canon files set) <->
-  In f files /\ exists c, canon f = Some c /\ In c set /\ canon c = Some c.
+  In f files /\ canon f = Some f /\ In f set.
 Proof.
   intros canon files set f. unfold filter_by_set. rewrite filter_In. unfold in_canonical_set.
   split.
-  - intros [H1 H2]. split; [exact H1|]. destruct (canon f) as [c|]; [|discriminate].
+  - intros [H1 H2]. split; [exact H1|]. destruct (self_canonical canon f) as [c|] eqn:Sf; [|discriminate].
+    apply self_canonical_some in Sf as [Hc Ec]. subst c. split; [exact Hc|].
     apply mem_path_In in H2. apply In_filter_map in H2 as [x [Hx Hs]].
-    apply self_canonical_some in Hs as [Hc ->]. exists x. split; [reflexivity|]. split; assumption.
-  - intros [H1 [c [Hc [Hin Hcc]]]]. split; [exact H1|]. rewrite Hc. apply mem_path_In.
-    apply In_filter_map. exists c. split; [exact Hin|]. apply self_canonical_some. split; [exact Hcc | reflexivity].
+    apply self_canonical_some in Hs as [_ Ex]. subst x. exact Hx.
+  - intros [H1 [Hc Hin]]. split; [exact H1|].
+    assert (Sf : self_canonical canon f = Some f) by (apply self_canonical_some; split; [exact Hc | reflexivity]).
+    rewrite Sf. apply mem_path_In. apply In_filter_map. exists f. split; [exact Hin | exact Sf].
 Qed.
 
 Lemma filter_by_set_plain : forall canon files set,
@@ -642,8 +644,8 @@ Lemma filter_by_set_plain : forall canon files set,
   forall f, In f (filter_by_set canon files set) <-> In f files /\ In f set.
 Proof.
   intros canon files set H f. rewrite filter_by_set_spec. split.
-  - intros [H1 [c [Hc [Hin _]]]]. rewrite (H f H1) in Hc. inversion Hc; subst. split; assumption.
-  - intros [H1 H2]. split; [exact H1|]. exists f. split; [apply H; exact H1|]. split; [exact H2 | apply H; exact H1].
+  - intros [H1 [_ Hin]]. split; assumption.
+  - intros [H1 H2]. split; [exact H1|]. split; [apply H; exact H1 | exact H2].
 Qed.
 
 Lemma option_str_neq : forall (A : Type) (a b : option A),
@@ -735,7 +737,7 @@ Proof. intros. split; reflexivity. Qed.
 Lemma listed_run_spec : forall (R : Type) (eval : path -> option R) canon set listed f r,
   In (f, r) (fst (listed_run R eval canon (Some set) listed)) <->
   In (f, r) (fst (listed_run R eval canon None listed)) /\
-  In f listed /\ exists c, canon f = Some c /\ In c set /\ canon c = Some c.
+  In f listed /\ canon f = Some f /\ In f set.
 Proof.
   intros R eval canon set listed f r.
   destruct (listed_run_is_restricted R eval canon set listed) as [-> ->].
